@@ -258,7 +258,27 @@ func cmdCheck(args []string) int {
 			fns = []*ssa.Function{f}
 		}
 	}
+	// contracts whose function disappeared: a violation of every property they serve
+	orphanViolations := 0
+	if *only == "" {
+		for _, oc := range v.Orphans {
+			if !(oc.Props[*prop] || *prop == "C20") {
+				continue
+			}
+			orphanViolations++
+			os.MkdirAll(filepath.Join(verifDir, "evidence", "replays"), 0755)
+			path := filepath.Join(verifDir, "evidence", "replays", fmt.Sprintf("%s_%s.json", *prop, mangle(oc.Key+"/contract-mismatch")))
+			data, _ := json.MarshalIndent(map[string]interface{}{"property": *prop, "obligation": strings.Replace(oc.Key, ":", ".", 1) + "/contract-mismatch", "kind": "contract-mismatch",
+				"clause": "the function " + oc.Key + " under contract (" + oc.Where + ") no longer exists in the code: its obligations cannot be discharged", "reproduced_on_real_code": false}, "", " ")
+			os.WriteFile(path, data, 0644)
+			fmt.Printf("VIOLATION property=%s replay=%s no-failing-input-found\n", *prop, path)
+			fmt.Printf("  obligation %s/contract-mismatch: the function under contract (%s) no longer exists\n", strings.Replace(oc.Key, ":", ".", 1), oc.Where)
+		}
+	}
 	if len(fns) == 0 {
+		if orphanViolations > 0 {
+			return 1
+		}
 		fmt.Fprintf(os.Stderr, "govc: no function under contract for property %s\n", *prop)
 		return 2
 	}
@@ -597,7 +617,10 @@ func cmdCheck(args []string) int {
 	if !*noEvidence && *only == "" {
 		writeEvidence(v, *prop, *tier, seed, jobs, total, discharged, violations, knownHit, samples, perBackend, solverSecs, wall, notClaimedHit, ncovers, deferred)
 	}
-	fmt.Printf("property %s: %d obligations over %d functions, %d discharged, %d known findings, %d violations, %d not claimed (%.1fs)\n", *prop, total, len(jobs), discharged, len(knownHit), violations, nNotClaimed, wall)
+	fmt.Printf("property %s: %d obligations over %d functions, %d discharged, %d known findings, %d violations, %d not claimed (%.1fs)\n", *prop, total, len(jobs), discharged, len(knownHit), violations+orphanViolations, nNotClaimed, wall)
+	if orphanViolations > 0 {
+		exit = 1
+	}
 	return exit
 }
 
